@@ -24,9 +24,9 @@ theorem C19_suppressed_iff_in_scope (starts : List Nat) (len : Nat) (ok : Starts
   · intro ⟨tag, hm, hsel, rng, hrng, hcov⟩
     have hne := tagRange_nonempty starts len ok tag (htags tag hm) rng hrng
     obtain ⟨p, h1, h2, h3⟩ := (covers_iff rng r hne hr).mp hcov
-    exact ⟨tag, hm, hsel, p, h3, (tagRange_inScope starts len ok tag p).mp ⟨rng, hrng, h1, h2⟩⟩
+    exact ⟨tag, hm, hsel, p, h3, (tagRange_inScope starts len ok tag p (fun br top hb => ((htags tag hm).2.2 br top hb).2.2)).mp ⟨rng, hrng, h1, h2⟩⟩
   · intro ⟨tag, hm, hsel, p, h3, hin⟩
-    obtain ⟨rng, hrng, h1, h2⟩ := (tagRange_inScope starts len ok tag p).mpr hin
+    obtain ⟨rng, hrng, h1, h2⟩ := (tagRange_inScope starts len ok tag p (fun br top hb => ((htags tag hm).2.2 br top hb).2.2)).mpr hin
     have hne := tagRange_nonempty starts len ok tag (htags tag hm) rng hrng
     exact ⟨tag, hm, hsel, rng, hrng, (covers_iff rng r hne hr).mpr ⟨p, h1, h2, h3⟩⟩
 
@@ -59,7 +59,7 @@ theorem C19_next_line_later_lines_unaffected (starts : List Nat) (len : Nat) (ok
   intro hin
   unfold inScope at hin
   simp only [hk] at hin
-  obtain ⟨l', lp, hl', _, hlp, _, hle, _⟩ := hin
+  obtain ⟨l', lp, hl', hlp, _, hle, _⟩ := hin
   rw [hl] at hl'; cases hl'
   have := (getLine_le_iff starts ok.sorted p lp (l + 1) e hlp he).mpr hle
   unfold occupies at hp
@@ -76,7 +76,7 @@ theorem C19_line_other_lines_unaffected (starts : List Nat) (len : Nat) (ok : St
   intro hin
   unfold inScope at hin
   simp only [hk] at hin
-  obtain ⟨l', hl', hlp, _⟩ := hin
+  obtain ⟨l', hl', _, hlp, _⟩ := hin
   rw [hl] at hl'; cases hl'
   obtain ⟨⟨s, hs, h1⟩, h2⟩ := (getLine_some_iff starts ok.sorted p l).mp hlp
   unfold occupies at hp
@@ -87,11 +87,12 @@ theorem C19_line_other_lines_unaffected (starts : List Nat) (len : Nat) (ok : St
   · rw [hs] at hs'; cases hs'; omega
 
 /-- **Other blocks are unaffected** by a block-level `disable`: a non-empty diagnostic range that
-does not overlap the enclosing block's range occupies no position in scope. -/
+inside the text
+that does not overlap the enclosing block's range occupies no position in scope. -/
 theorem C19_block_other_blocks_unaffected (starts : List Nat) (len : Nat) (tag : Tag)
     (hk : tag.kind = .disable) (br : Range) (top : Bool) (hb : tag.block = some (br, top))
-    (r : Range) (hr : r.1 < r.2) (hout : r.2 ≤ br.1 ∨ br.2 ≤ r.1) (p : Nat) (hp : occupies r p) :
-    ¬ inScope starts len tag p := by
+    (r : Range) (hr : r.1 < r.2) (hlen : r.2 ≤ len) (hout : r.2 ≤ br.1 ∨ br.2 ≤ r.1) (p : Nat)
+    (hp : occupies r p) : ¬ inScope starts len tag p := by
   intro hin
   unfold inScope at hin
   simp only [hk] at hin
@@ -155,7 +156,14 @@ example :
   decide
 
 example : inScope [0, 4, 10, 16] 16 ⟨.disableNextLine, none, (0, 3), none⟩ 9 := by
-  refine ⟨0, 1, by decide, by decide, by decide, by decide, by decide, by decide⟩
+  refine ⟨0, 1, by decide, by decide, by decide, by decide, by decide⟩
+
+/-- the end-of-file position belongs to the last line: a zero-width diagnostic at `len` is suppressed by
+a `disable-line` on the last line and by a `disable-next-line` on the line before -/
+example :
+    let st := analyze [0, 4, 10] 14 [⟨.disableLine, none, (11, 14), some ((0, 14), true)⟩]
+    suppressed st 7 (14, 14) = true ∧ suppressed st 7 (9, 10) = false := by
+  decide
 
 example : TagOK 16 ⟨.disableNextLine, some [some 7], (0, 3), some ((0, 16), true)⟩ := by
   refine ⟨by decide, by decide, ?_⟩
